@@ -1,4 +1,4 @@
 from ..framework import Spec
-from ..ties_sys import isa_tie
+from ..ties_sys import isa_tie, macro_scenario_tie
 
-SPEC = Spec(pid='C13', coq_needs=['Base', 'Match', 'ProgramIsa', 'Properties/C13'], ties=[isa_tie()])
+SPEC = Spec(pid='C13', coq_needs=['Base', 'Match', 'ProgramIsa', 'Properties/C13'], ties=[isa_tie(), macro_scenario_tie()])
